@@ -99,6 +99,16 @@ class C01(Spec):
                                  "summary": "bio\x07", "published": "2020-01-01T00:00:00Z\x1b"}, 1, [80, 10], [1]),
                  c06.itemx_case({"type": "No\x1bte", "name": "t\x9b31m", "content": "x", "attachment": [{"type": "Image", "name": "al\x1b]0;t\x07", "url": "https://m.example/\x1b.png"}],
                                  "attributedTo": {"type": "Person", "name": "\x1b[41mred"}}, 0, [80, 10], [1, 2])]
+        # references that cannot be fetched and whose error text quotes what the server's JSON said: hosts with C1 controls
+        # (url.Parse lets them through; the resolver's error message repeats them), in every place an item shows such an error
+        bad_refs = ["https://ho\x9bst.invalid/u", "https://a\x85b.invalid/x\x9d", "https://\u202eevil.invalid/", "https://x.invalid/\x9b2J"]
+        for ref in bad_refs:
+            for kind in ("Announce", "Like", "Dislike", "Create"):
+                items.append(c06.itemx_case({"type": kind, "actor": ref, "object": {"type": "Note", "content": "x"}}, 2, [80, 9], [1]))
+                items.append(c06.itemx_case({"type": kind, "actor": {"type": "Person", "name": "A"}, "object": ref}, 2, [80], [1]))
+            items.append(c06.itemx_case({"type": "Note", "content": "x", "attributedTo": ref, "audience": [ref], "inReplyTo": ref, "replies": ref}, 0, [80], [1]))
+            items.append(c06.itemx_case({"type": "Person", "name": "A", "outbox": ref, "icon": ref, "image": {"type": "Image", "url": ref}}, 1, [80], [1]))
+            items.append(c06.item_case({"type": "Collection", "items": [ref], "first": ref}, 3, [80], [1]))
         n = 400 if tier == "quick" else 30000
         gens = [(asgen.post, 0), (asgen.actor, 1), (asgen.activity, 2), (asgen.collection, 3), (asgen.link, 4)]
         for _ in range(n):
